@@ -1704,13 +1704,14 @@ def op_nav(w, op):
                 res = node["/"]
             else:
                 raise env.HarnessError(prim)
-        except env.HarnessError:
+        except (env.HarnessError, Violation):
             raise
         except Exception:
             res = None
         w.probe("nav:" + prim)
         if res is None:
-            a["handles"][dv.kind].append(None)
+            if prim != "restrict_self":
+                a["handles"][dv.kind].append(None)
             continue
         if is_raw_node(w, res):
             raise Violation("C15", "unwrapped-node", f"[{dv.kind}] {prim} from a node restricted {sorted(src_flags)} returned an unwrapped {type(res).__name__} ({res.name})", shape=prim)
